@@ -85,6 +85,7 @@ type Options struct {
 }
 
 type Exec struct {
+	splitHints []*Term // conditions worth a case split when proving (e.g. append fits / reallocates)
 	ld          *Loaded
 	top         *ssa.Function
 	obs         []*Obligation
